@@ -364,6 +364,11 @@ func elecRun(w *World) {
 					if r.Code == codes.OK && (o.Kind == "set" || o.Kind == "change" || o.Kind == "clear") {
 						e.active = true
 					}
+					if r.Code == codes.OK && o.Kind == "clear" && r.Mode != nil && !r.Mode.Normal {
+						// whatever the other callers were doing: the mode that a clear selects (and returns) is the normal one
+						// at that instant - a mode that is not marked normal cannot come out of any order of the calls
+						w.Violate("clear-active", fmt.Sprintf("%s, concurrently with other callers, selected and returned %v, which is not marked normal", o, r.Mode), map[string]any{"phase": "concurrent"})
+					}
 					task.Note("%s -> %s %v", o, r.Code, r.Mode)
 				}
 			})
